@@ -263,6 +263,9 @@ class Loops:
             lo, hi = zint(it.lo), zint(it.hi)
             n = z3.If(hi - lo > 0, hi - lo, z3.IntVal(0))
             item = lambda kz: mk_int(lo + kz)
+        elif hasattr(it, "item") and hasattr(it, "n"):  # symbolic sequence (configdb.SymSeq)
+            n = it.n
+            item = lambda kz: it.item(self.ex, kz)
         else:
             raise Unsupported(f"for-contract over {type(it).__name__}")
         self._check_invs(lc, fr, qn, ordn, "inv-init")
